@@ -516,6 +516,51 @@ def run_foreign_range(ctx):
                       domain_cells=[float(v) for v in sp.cell_sides], range_cells=[float(v) for v in op.range.cell_sides])
 
 
+def run_dtype_change(ctx):
+    """Range of another data type than the domain (explicit range, or discr_kwargs={'dtype': ...}): the overlapping block is the
+    input converted to the range type and the remainder is filled by the named rule *in the range type* - a constant that only
+    the range type represents (0.1 for float32 -> float64, 0.5 for int -> float, 1+2j for real -> complex) arrives unrounded."""
+    rng = ctx.rng('dtype-change')
+    idx = 40000
+    combos = [('float32', 'float64', 0.1), ('float64', 'float32', 0.1), ('int64', 'float64', 0.5), ('float64', 'complex128', 1 + 2j),
+              ('float32', 'complex128', 0.1 - 0.3j), ('float64', 'float64', 0.1)]
+    for (ddt, rdt, const), nd, how, mode in itertools.product(combos, (1, 2), ('explicit-range', 'discr_kwargs'), ('constant', 'order0', 'periodic')):
+        idx += 1
+        if not ctx.mine(idx):
+            continue
+        shape = (4, 3)[:nd]
+        rshape = tuple(k + 3 for k in shape)
+        cfg = '%s->%s;%s;%s' % (ddt, rdt, how, mode)
+        ctx.case('dtype-change;' + cfg, nd)
+        ctx.ev('resizing-operator')
+        try:
+            dom = odl.uniform_discr([0.0] * nd, [1.0, 2.0][:nd], shape, dtype=ddt)
+            kw = {'pad_mode': mode}
+            if mode == 'constant':
+                kw['pad_const'] = const
+            if how == 'explicit-range':
+                op0 = odl.ResizingOperator(dom, ran_shp=rshape)
+                ran = odl.uniform_discr(op0.range.min_pt, op0.range.max_pt, rshape, dtype=rdt)
+                op = odl.ResizingOperator(dom, ran, **kw)
+            else:
+                op = odl.ResizingOperator(dom, ran_shp=rshape, discr_kwargs={'dtype': rdt}, **kw)
+            if np.dtype(op.range.dtype) != np.dtype(rdt):
+                ctx.violation('ResizingOperator', 'dtype-change;' + cfg, 'range-dtype')
+                continue
+            xa = rng.integers(-5, 6, size=shape).astype(ddt) if np.dtype(ddt).kind == 'i' else rng.normal(size=shape).astype(ddt)
+            x = dom.element(xa)
+            y = np.asarray(op(x))
+            offs = tuple(int(o) for o in op.offset)
+            padw = [(o, r - k - o) for o, r, k in zip(offs, rshape, shape)]
+            npmode = {'constant': 'constant', 'order0': 'edge', 'periodic': 'wrap'}[mode]
+            ref = np.pad(xa.astype(rdt), padw, mode=npmode, **({'constant_values': np.dtype(rdt).type(const)} if mode == 'constant' else {}))
+            if y.dtype != np.dtype(rdt) or not np.array_equal(y, ref):
+                ctx.violation('ResizingOperator', 'dtype-change;' + cfg, 'value!=numpy.pad-in-the-range-dtype',
+                              maxdiff=float(np.abs(y.astype(complex) - ref.astype(complex)).max()))
+        except Exception as e:
+            ctx.violation('ResizingOperator', 'dtype-change;' + cfg, 'raises:' + type(e).__name__, message=str(e)[:200])
+
+
 def run(ctx):
     ctx.note('rule', 'one case = (old shape, new shape, offsets, pad mode, dtype/layout); the lattice per-axis '
                      '{grow, shrink, same} x offsets {0, max, interior} x 5 modes x ndim 1..3 is enumerated, plus seeded '
@@ -531,6 +576,7 @@ def run(ctx):
     run_range_geometry(ctx)
     run_explicit_range(ctx)
     run_foreign_range(ctx)
+    run_dtype_change(ctx)
     cov.disarm()
     n_exec, n_hit, unreached = cov.report()
     ctx.note('line_coverage', {'executable': n_exec, 'hit': n_hit})
